@@ -1,5 +1,6 @@
 import Pysmi.Model.Imports
 import Pysmi.Generated.Smiv1
+import Pysmi.Props.C01
 /-!
 # C16 — SMIv1 modules compile to the same objects as their SMIv2 transliteration
 
@@ -14,6 +15,8 @@ The part of the property that is a statement about tables and the import rewriti
   no replacement lives in RFC1065-SMI, RFC1155-SMI, RFC1158-MIB, RFC-1212 or RFC-1215.
 * `C16_every_v1_symbol_has_home_*`: the symbols the property names are in the table of each module that defines them
   (this is where the pinned tree was wrong for RFC1158-MIB).
+* `C16_trap_oid`: the OID the generator gives a TRAP-TYPE (`enterprise ++ [0, n]`) is the OID the transliterated
+  NOTIFICATION-TYPE `::= { enterprise 0 n }` denotes, for every symbol table, enterprise symbol and trap number.
 * `C16_type_map`: Counter, Gauge, NetworkAddress, INTEGER name Counter32, Gauge32, IpAddress, Integer32 in all three type
   tables; TRAP-TYPE is imported as NotificationType.
 
@@ -276,3 +279,22 @@ theorem C16_type_map :
     pysnmpSmiObjects.lookup "NOTIFICATION-TYPE" = some ["NotificationType"] := by decide +kernel
 
 end Pysmi.Generated.Smiv1
+
+namespace Pysmi.Oid
+
+/-- **C16_trap_oid**: `x TRAP-TYPE ENTERPRISE e … ::= n` and `x NOTIFICATION-TYPE … ::= { e 0 n }` get the same OID. -/
+theorem C16_trap_oid (iso : Name) (T : Tables) (e : Name) (m : Module) (eo : List Nat) (n : Nat)
+    (he : Denotes iso T [.ref e m] eo) :
+    Denotes iso T (capture (fun _ => none) m [.name e, .num 0, .num n]) (trapOid eo n) := by
+  have h2 : Denotes iso T [.num 0, .num n] [0, n] := .num (.num .nil)
+  simp only [capture, Option.getD_none, trapOid]
+  cases he with
+  | iso hr =>
+    cases hr
+    exact .iso h2
+  | ref hne ht ha hr =>
+    cases hr
+    simp only [List.append_nil]
+    exact .ref hne ht ha h2
+
+end Pysmi.Oid
